@@ -43,6 +43,8 @@ CLAIMS["C09"] = ("the compatibility checker's verdict table over all schema shap
                  "static analysis: variant-partitioned path summaries of checker x resolver x decoder over MIR + shape rules")
 CLAIMS["C10"] = ("serializer/parser agreement per node kind: every key written explicitly is structural for the parser (or withheld from the fixed's attribute loop by a re-verified skip list) and every structural key is written; the logicalType literal and base type written for each of the 16 logical shapes are the ones on which the parser builds that shape; namespace is written wherever name is; references are written as full names; the 8 primitive names map back to the same variant",
                  "static analysis: literal/key tables of the serializers (variant-partitioned) vs the parser's structural-key sets and match arms over MIR")
+CLAIMS["C15"] = ("per Codec variant the compress and decompress arms call the dual library entry points of the stream format the specification names (raw deflate, raw snappy blocks, bzip2, xz, zstd; no zlib wrapper, no framed snappy); snappy trailer = big-endian CRC-32 of the uncompressed bytes, verified against the decoded bytes with a mismatch edge that is an error; every decompress arm bounds its output by the allocation limit; the compression level written to the header is the one used to compress and the one the reader rebuilds; results replace the caller's buffer",
+                 "static analysis: variant-partitioned call inventory vs a pairing table + def-use/edge rules over MIR")
 NA_DEFAULT = "check under construction in this round (see DESIGN.md); not yet claimed"
 
 
